@@ -138,7 +138,7 @@ def judge(ctx, sc, history, idx, rec):
                       witness(sc, history, idx, rec, exp, {"rule": exp["rule"], "impl": outcome, "want": "success",
                                                            "reply_text": text[:200]}))
         return
-    bad = ref.compare(exp, rec.pre, rec.post, sc.src_snap)
+    bad = ref.compare(exp, rec.pre, rec.post, rec.src_snap)
     if bad:
         w = witness(sc, history, idx, rec, exp, {"rule": exp["rule"], "bad": bad[:12],
                                                  "expected_entries": _brief_exp(exp)})
@@ -148,7 +148,7 @@ def judge(ctx, sc, history, idx, rec):
         for r in (1, 2, 3):
             for subset in itertools.combinations(QUIRKS, r):
                 alt = ref.model(req, sc.tree, sc.work, rec.pre, P, quirks=subset, umask=sc.umask)
-                if alt["verdict"] == "ok" and not ref.compare(alt, rec.pre, rec.post, sc.src_snap):
+                if alt["verdict"] == "ok" and not ref.compare(alt, rec.pre, rec.post, rec.src_snap):
                     expl = subset
                     break
             if expl:
